@@ -16,6 +16,8 @@ mod lock;
 
 #[cfg(not(target_arch = "wasm32"))]
 pub(crate) use counter::Counter;
+#[cfg(all(eigerco_lumina_verif, not(target_arch = "wasm32")))]
+pub(crate) use counter::verif_hooks as counter_verif_hooks;
 #[cfg(target_arch = "wasm32")]
 pub(crate) use dns::resolve_bootnode_addresses;
 pub(crate) use fused_reusable_future::FusedReusableFuture;
